@@ -46,7 +46,7 @@ func findCtxIO(p *Prog) []ctxIO {
 			}
 			switch cl.Call.Method.Name() {
 			case "Read", "Write", "ReadFrom", "WriteTo":
-				if _, ok := asFieldLoad(cl.Call.Value); ok {
+				if _, ok := asFieldLoad(derefLocal(cl.Call.Value)); ok {
 					io = cl
 				}
 			}
@@ -81,7 +81,10 @@ func findCtxIO(p *Prog) []ctxIO {
 
 func isZeroTime(v ssa.Value) bool {
 	c, ok := v.(*ssa.Const)
-	return ok && c.Value == nil && c.Type().String() == "time.Time"
+	if ok && c.Value == nil && c.Type().String() == "time.Time" {
+		return true
+	}
+	return v.Type().String() == "time.Time" && zeroGlobalLoad(v)
 }
 
 func runC17(c *Ctx) {
@@ -97,12 +100,14 @@ func runC17(c *Ctx) {
 	for _, s := range sibs {
 		F, W := s.F, s.Watch
 		setName := "Set" + s.Dir + "Deadline"
-		other := "SetWriteDeadline"
-		if s.Dir == "Write" {
-			other = "SetReadDeadline"
-		}
-		conn := s.IO.Call.Value // value of the nextConn field
+		conn := derefLocal(s.IO.Call.Value) // value of the nextConn field
 		connField, _ := asFieldLoad(conn)
+		if s.Mu != "" {
+			if muByType[s.T] == nil {
+				muByType[s.T] = map[string]string{}
+			}
+			muByType[s.T][s.Dir] = s.Mu
+		}
 
 		// R1 watcher
 		o := c.Obl("R1", fname(F), "the watcher goroutine, when the context fires, forces a past "+s.Dir+" deadline on the wrapped connection, waits for the operation to finish, and then restores the zero "+s.Dir+" deadline on every path where forcing succeeded; it signals completion (wg.Done) only after that", 2)
@@ -110,100 +115,176 @@ func runC17(c *Ctx) {
 			o.Fail(F.Pos(), "no watcher goroutine is started")
 			continue
 		}
-		isSet := func(in ssa.Instruction, name string) bool {
-			cl, ok := in.(*ssa.Call)
-			if !ok || !cl.Call.IsInvoke() || cl.Call.Method.Name() != name {
-				return false
-			}
-			fr, ok := asFieldLoad(cl.Call.Value)
-			return ok && fr.SName == connField.SName && fr.Field == connField.Field
-		}
-		var force, restore *ssa.Call
-		instrsOf(W, func(in ssa.Instruction) {
-			if isSet(in, setName) {
-				cl := in.(*ssa.Call)
-				if isZeroTime(cl.Call.Args[0]) {
-					restore = cl
-				} else {
-					force = cl
+		// the completion channel: the channel F closes after the I/O, captured by the watcher
+		var goInstr *ssa.Go
+		instrsOf(F, func(in ssa.Instruction) {
+			if g, ok := in.(*ssa.Go); ok {
+				if mc, ok := g.Call.Value.(*ssa.MakeClosure); ok && mc.Fn == ssa.Value(W) {
+					goInstr = g
 				}
 			}
-			if isSet(in, other) || isSet(in, "SetDeadline") {
-				o.Fail(in.Pos(), "the watcher of a %s operation touches the other direction's deadline (%s): a concurrent operation in the other direction is cancelled / left with a past deadline", s.Dir, in.(*ssa.Call).Call.Method.Name())
-			}
 		})
+		bindOf := func(v ssa.Value) ssa.Value { // free variable of the watcher -> the captured value of F
+			if fv, ok := v.(*ssa.FreeVar); ok && goInstr != nil {
+				mc := goInstr.Call.Value.(*ssa.MakeClosure)
+				for i, q := range W.FreeVars {
+					if q == fv && i < len(mc.Bindings) {
+						return mc.Bindings[i]
+					}
+				}
+			}
+			return v
+		}
+		var doneCells []ssa.Value
+		for _, in := range findU(F, func(in ssa.Instruction) bool { return isCall(in, "builtin.close") }) {
+			a := strip(in.(ssa.CallInstruction).Common().Args[0])
+			if u, ok := a.(*ssa.UnOp); ok && u.Op == token.MUL {
+				a = u.X
+			}
+			doneCells = append(doneCells, a)
+		}
+		isDoneCh := func(pth *upath, v ssa.Value) bool {
+			v = strip(pth.resolve(strip(v)))
+			if u, ok := v.(*ssa.UnOp); ok && u.Op == token.MUL {
+				v = u.X
+			}
+			v = bindOf(v)
+			for _, d := range doneCells {
+				if v == d {
+					return true
+				}
+			}
+			return false
+		}
+		isCtxDone := func(pth *upath, v ssa.Value) bool {
+			cl, ok := strip(pth.resolve(strip(v))).(*ssa.Call)
+			return ok && cl.Call.IsInvoke() && cl.Call.Method.Name() == "Done" && cl.Call.Value.Type().String() == "context.Context"
+		}
+		isConnVal := func(pth *upath, v ssa.Value) bool {
+			fr, ok := asFieldLoad(derefLocal(strip(pth.resolve(strip(v)))))
+			return ok && fr.SName == connField.SName && fr.Field == connField.Field
+		}
+		// setCall: in is a call of Set<X>Deadline on the wrapped connection - an interface call, or a call of a
+		// bound method value that was passed down to a helper
+		setCall := func(pth *upath, in ssa.Instruction) (method string, arg ssa.Value, ok bool) {
+			cl, isCl := in.(*ssa.Call)
+			if !isCl {
+				return "", nil, false
+			}
+			if cl.Call.IsInvoke() {
+				n := cl.Call.Method.Name()
+				if strings.HasPrefix(n, "Set") && strings.HasSuffix(n, "Deadline") && isConnVal(pth, cl.Call.Value) && len(cl.Call.Args) == 1 {
+					return n, pth.resolve(cl.Call.Args[0]), true
+				}
+				return "", nil, false
+			}
+			if mc, isMc := strip(pth.resolve(cl.Call.Value)).(*ssa.MakeClosure); isMc {
+				if bf, _ := mc.Fn.(*ssa.Function); bf != nil && strings.HasSuffix(bf.Name(), "$bound") && len(mc.Bindings) == 1 && len(cl.Call.Args) == 1 {
+					n := strings.TrimSuffix(bf.Name(), "$bound")
+					if strings.HasPrefix(n, "Set") && strings.HasSuffix(n, "Deadline") && isConnVal(pth, mc.Bindings[0]) {
+						return n, pth.resolve(cl.Call.Args[0]), true
+					}
+				}
+			}
+			return "", nil, false
+		}
+		paths, okPaths := enumPathsU(W, 4096)
+		if !okPaths {
+			o.Undecide("the paths of the watcher of %s could not be enumerated (loop or too many paths)", fname(F))
+			continue
+		}
+		var force, restore ssa.Instruction
+		for pi := range paths {
+			pth := &paths[pi]
+			ctxFired, waited := false, false
+			var forced *ssa.Call // a force whose success has not yet been followed by a restore on this path
+			forcedFailed := false
+			for _, in := range pth.Instrs {
+				switch x := in.(type) {
+				case *ssa.Select:
+					k := selCaseOnPath(pth, x)
+					hasCtx, hasDone := false, false
+					for _, st := range x.States {
+						if st.Dir == types.RecvOnly && isCtxDone(pth, st.Chan) {
+							hasCtx = true
+						}
+						if st.Dir == types.RecvOnly && isDoneCh(pth, st.Chan) {
+							hasDone = true
+						}
+					}
+					if hasCtx && !hasDone {
+						o.Fail(x.Pos(), "the watcher does not also wait for the operation to complete: it leaks until the context ends")
+					}
+					if k >= 0 && k < len(x.States) && x.States[k].Dir == types.RecvOnly {
+						if isCtxDone(pth, x.States[k].Chan) {
+							ctxFired = true
+						}
+						if isDoneCh(pth, x.States[k].Chan) {
+							waited = true
+						}
+					}
+				case *ssa.UnOp:
+					if x.Op == token.ARROW {
+						if isCtxDone(pth, x.X) {
+							ctxFired = true
+						}
+						if isDoneCh(pth, x.X) {
+							waited = true
+						}
+					}
+				case *ssa.Call:
+					m, arg, ok := setCall(pth, in)
+					if !ok {
+						break
+					}
+					if m != setName {
+						o.Fail(in.Pos(), "the watcher of a %s operation touches the other direction's deadline (%s): a concurrent operation in the other direction is cancelled / left with a past deadline", s.Dir, m)
+						break
+					}
+					if isZeroTime(arg) {
+						restore = in
+						if forced != nil && !waited {
+							o.Fail(in.Pos(), "the zero deadline is restored without first waiting for the cancelled operation to return (it would not be interrupted)")
+						}
+						forced = nil
+					} else {
+						force = in
+						if !ctxFired {
+							o.Fail(in.Pos(), "the past deadline is forced on a path where the context has not fired")
+						}
+						forced, waited, forcedFailed = x, false, false
+					}
+				}
+			}
+			if forced != nil {
+				// the path ended without a restore: allowed only on the edge where forcing reported an error
+				for _, ft := range pth.Conds {
+					if nilFact(ft, func(v ssa.Value) bool { return v == ssa.Value(forced) }, false) {
+						forcedFailed = true
+					}
+				}
+				if !forcedFailed {
+					o.Fail(forced.Pos(), "after forcing the past deadline the watcher can finish without restoring the zero deadline")
+				}
+			}
+		}
 		// also: no restore/force in the outer function
-		instrsOf(F, func(in ssa.Instruction) {
-			if cl, ok := in.(*ssa.Call); ok && cl.Call.IsInvoke() && strings.HasPrefix(cl.Call.Method.Name(), "Set") && strings.HasSuffix(cl.Call.Method.Name(), "Deadline") {
-				o.Fail(in.Pos(), "%s manipulates the wrapped connection's deadline itself (outside the watcher): the restore is then conditional on how the operation ended", fname(F))
-			}
-		})
+		for _, in := range findU(F, func(in ssa.Instruction) bool {
+			cl, ok := in.(*ssa.Call)
+			return ok && cl.Call.IsInvoke() && strings.HasPrefix(cl.Call.Method.Name(), "Set") && strings.HasSuffix(cl.Call.Method.Name(), "Deadline")
+		}) {
+			o.Fail(in.Pos(), "%s manipulates the wrapped connection's deadline itself (outside the watcher): the restore is then conditional on how the operation ended", fname(F))
+		}
 		if force == nil {
 			o.Fail(W.Pos(), "the watcher never forces a past %s deadline: cancellation cannot interrupt the operation", s.Dir)
 			continue
 		}
-		o.Site(force.Pos(), "force %s(%s)", setName, force.Call.Args[0].String())
-		// forced only after the context fired
-		okCtx := false
-		for _, cm := range commsOfU(W) {
-			if cm.Dir == types.RecvOnly && chanRole(cm.Chan) == "ctx.Done" && cm.Sel != nil {
-				cs, _ := caseBlocks(cm.Sel)
-				if blk := cs[cm.Index]; blk != nil && (blk == force.Block() || blk.Dominates(force.Block())) {
-					okCtx = true
-				}
-				// the same select must also wait for completion
-				hasDone := false
-				for _, st := range cm.Sel.States {
-					if st.Dir == types.RecvOnly && chanRole(st.Chan) == "var done" {
-						hasDone = true
-					}
-				}
-				if !hasDone {
-					o.Fail(cm.Sel.Pos(), "the watcher does not also wait for the operation to complete: it leaks until the context ends")
-				}
-			}
-		}
-		if !okCtx {
-			o.Fail(force.Pos(), "the past deadline is forced on a path where the context has not fired")
-		}
+		o.Site(force.Pos(), "force %s on %d watcher path(s) enumerated", setName, len(paths))
 		if restore == nil {
 			o.Fail(W.Pos(), "the watcher never restores the zero %s deadline: the next operation with a live context inherits the past deadline", s.Dir)
 			continue
 		}
 		o.Site(restore.Pos(), "restore %s(zero)", setName)
-		// between force and restore: a receive from done
-		var wait ssa.Instruction
-		for _, cm := range commsOfU(W) {
-			if cm.Sel == nil && cm.Dir == types.RecvOnly && chanRole(cm.Chan) == "var done" {
-				wait = cm.Instr
-			}
-		}
-		if wait == nil || !domU(force, wait) || !domU(wait, restore) {
-			o.Fail(restore.Pos(), "the zero deadline is restored without first waiting for the cancelled operation to return (it would not be interrupted)")
-		}
-		// every path from the success edge of force to a return passes restore
-		var okEdge *ssa.BasicBlock
-		for _, rf := range *force.Referrers() {
-			if b, ok := rf.(*ssa.BinOp); ok {
-				for _, r2 := range *b.Referrers() {
-					if iff, ok := r2.(*ssa.If); ok {
-						cm, _ := normCmp(iff.Cond, true)
-						if cm.Op == token.NEQ {
-							okEdge = iff.Block().Succs[1]
-						} else {
-							okEdge = iff.Block().Succs[0]
-						}
-					}
-				}
-			}
-		}
-		start := posAfter(force)
-		if okEdge != nil {
-			start = blockStart(okEdge)
-		}
-		if ok, bad := mustPassU(start, isReturn, func(in ssa.Instruction) bool { return in == ssa.Instruction(restore) }); !ok {
-			o.Fail(bad.Pos(), "after forcing the past deadline the watcher can finish without restoring the zero deadline")
-		}
 		// wg.Done is deferred at entry
 		okDone := false
 		for _, in := range W.Blocks[0].Instrs {
@@ -376,4 +457,25 @@ func runC17(c *Ctx) {
 func isConstZero(v ssa.Value) bool {
 	k, ok := constInt(v)
 	return ok && k == 0
+}
+
+// selCaseOnPath: index of the select case taken on the path (-1: default or unknown).
+func selCaseOnPath(p *upath, sel *ssa.Select) int {
+	for _, ft := range p.Conds {
+		if !ft.Val {
+			continue
+		}
+		b, ok := ft.Cond.(*ssa.BinOp)
+		if !ok || b.Op != token.EQL {
+			continue
+		}
+		ex, ok := b.X.(*ssa.Extract)
+		if !ok || ex.Index != 0 || ex.Tuple != ssa.Value(sel) {
+			continue
+		}
+		if k, ok := constInt(b.Y); ok {
+			return int(k)
+		}
+	}
+	return -1
 }
